@@ -212,7 +212,7 @@ pub fn check_dirsection(sc: &Scenario, d: &DirOutcome) -> Vec<Violation> {
         }
         return out;
     }
-    let start = p.dest.start as usize;
+    let start = d.dest.start as usize;
     let mut image: Vec<u8> = dir_header(sc.seed);
     let dir_rva = image.len();
     image.resize(dir_rva + 12 * p.slots as usize, 0);
